@@ -1,0 +1,53 @@
+//go:build verif
+
+package model
+
+// Contracts for the deductive checks in /verif (comment-only; no code).
+// Property C18: signed ingest and register requests are accepted only from
+// the provider named in them.
+
+//@ func (*IngestRequest).Domain
+//@   property C18
+//@   pure
+//@   ensures result == IngestRequestEnvelopeDomain
+
+//@ func (*IngestRequest).Codec
+//@   property C18
+//@   pure
+//@   ensures result == IngestRequestEnvelopePayloadType
+
+// From the property: the request is returned only if the envelope verified
+// for the ingest domain and was signed by the key of the provider ID inside it.
+//@ func ReadIngestRequest
+//@   property C18
+//@   ensures result1 == nil ==> result0 != nil
+//@   ensures result1 == nil ==> envValid(content(data), str(IngestRequestEnvelopeDomain))
+//@   ensures result1 == nil ==> str(result0.ProviderID) == idOfKey(envKeyOf(content(data)))
+//@   ensures result1 == nil ==> result0 == as(envRecordOf(content(data)), "*model.IngestRequest")
+//@   ensures result1 != nil ==> result0 == nil
+
+//@ func ReadRegisterRequest
+//@   property C18
+//@   ensures result1 == nil ==> result0 != nil
+//@   ensures result1 == nil ==> envValid(content(data), str(peer.PeerRecordEnvelopeDomain))
+//@   ensures result1 == nil ==> str(result0.PeerID) == idOfKey(envKeyOf(content(data)))
+//@   ensures result1 != nil ==> result0 == nil
+
+// Constructors seal a record whose fields are the arguments.
+//@ func MakeIngestRequest
+//@   property C18
+//@   at call makeRequestEnvelop#1: assert typeis(arg0, "*model.IngestRequest") && arg1 == privateKey
+//@   at call makeRequestEnvelop#1: assert as(arg0, "*model.IngestRequest").ProviderID == providerID && as(arg0, "*model.IngestRequest").Multihash == m
+//@   at call makeRequestEnvelop#1: assert as(arg0, "*model.IngestRequest").ContextID == contextID && as(arg0, "*model.IngestRequest").Metadata == metadata && as(arg0, "*model.IngestRequest").Addrs == addrs
+//@   ensures count("call:makeRequestEnvelop") == 1
+
+//@ func MakeRegisterRequest
+//@   property C18
+//@   loop 1: invariant len(maddrs) == len(addrs)
+//@   at call makeRequestEnvelop#1: assert arg1 == privateKey && as(arg0, "*peer.PeerRecord").PeerID == providerID
+//@   ensures result1 == nil ==> len(addrs) > 0
+
+//@ func makeRequestEnvelop
+//@   property C18
+//@   at call Seal#1: assert arg0 == rec && arg1 == privateKey
+//@   ensures result1 == nil ==> count("call:Seal") == 1
